@@ -2,6 +2,7 @@ package govc
 
 import (
 	"fmt"
+	"sort"
 	"go/types"
 	"strings"
 
@@ -111,7 +112,8 @@ func (eng *Engine) FuncEffects(f *ssa.Function) *Effects {
 				return
 			}
 		}
-		if fn.Blocks == nil {
+		if fn.Blocks == nil || !eng.InModule(fn) {
+			// library code is never walked: assumed contract, or the "direct pointees of module types" rule
 			res.add(eng.externEffects(fn, s))
 			return
 		}
@@ -138,6 +140,12 @@ func (eng *Engine) externEffects(fn *ssa.Function, s *sorts) *Effects {
 	sig := fn.Signature
 	add := func(t types.Type) {
 		if p, ok := t.Underlying().(*types.Pointer); ok {
+			// internals of library objects are invisible to the module: only module types and plain cells count
+			if n, isNamed := p.Elem().(*types.Named); isNamed {
+				if n.Obj().Pkg() == nil || !strings.HasPrefix(n.Obj().Pkg().Path(), ModPath) {
+					return
+				}
+			}
 			pointeeVars(s, p.Elem(), res.Vars, 0)
 		}
 	}
@@ -182,6 +190,9 @@ func (eng *Engine) modifiesVars(m *CExpr, fn *ssa.Function, s *sorts) (map[strin
 			for _, a := range m.Args[1:] {
 				out["G.u."+a.Name] = intSort
 			}
+			return out, nil
+		case "gm":
+			out["G.m."+m.Args[1].Name] = func(*sorts) string { return "(Array Int Int)" }
 			return out, nil
 		case "mapof":
 			t, err := eng.staticTypeOf(m.Args[1], fn)
@@ -276,6 +287,22 @@ func (eng *Engine) staticTypeOf(e *CExpr, fn *ssa.Function) (types.Type, error) 
 		}
 		return nil, fmt.Errorf("unknown identifier %s", e.Name)
 	case "sel":
+		if e.Args[0].Op == "id" {
+			// package-qualified type name (interop.Reset)
+			if t, err := eng.resolveType(e.Args[0].Name+"."+e.Name, fn); err == nil {
+				isLocal := false
+				if fn != nil {
+					for _, p := range fn.Params {
+						if p.Name() == e.Args[0].Name {
+							isLocal = true
+						}
+					}
+				}
+				if !isLocal {
+					return t, nil
+				}
+			}
+		}
 		bt, err := eng.staticTypeOf(e.Args[0], fn)
 		if err != nil {
 			return nil, err
@@ -364,11 +391,6 @@ func (eng *Engine) localEffects(ins ssa.Instruction, s *sorts, res *Effects, wal
 		if mt, ok := x.Map.Type().Underlying().(*types.Map); ok {
 			addMapVars(s, mt, res.Vars)
 		}
-	case *ssa.MakeClosure:
-		// a closure created here may run at any later point while this function is active
-		if fn, ok := x.Fn.(*ssa.Function); ok {
-			walk(fn)
-		}
 	case ssa.CallInstruction:
 		if _, isGo := ins.(*ssa.Go); isGo {
 			return // effects of a spawned goroutine are not effects of the spawner (thread-modular)
@@ -380,7 +402,25 @@ func (eng *Engine) localEffects(ins ssa.Instruction, s *sorts, res *Effects, wal
 	}
 }
 
+// rootsInAlloc: the address lies inside an object allocated by the same function (invisible to callers:
+// the locations did not exist before the call)
+func rootsInAlloc(addr ssa.Value) bool {
+	for {
+		switch a := addr.(type) {
+		case *ssa.FieldAddr:
+			addr = a.X
+		case *ssa.Alloc:
+			return true
+		default:
+			return false
+		}
+	}
+}
+
 func (eng *Engine) storeEffects(addr ssa.Value, s *sorts, res *Effects) {
+	if _, isAlloc := addr.(*ssa.Alloc); !isAlloc && rootsInAlloc(addr) {
+		return
+	}
 	switch a := addr.(type) {
 	case *ssa.FieldAddr:
 		st := a.X.Type().Underlying().(*types.Pointer).Elem()
@@ -423,6 +463,7 @@ func (eng *Engine) callEffects(c *ssa.CallCommon, s *sorts, res *Effects, walk f
 			return
 		}
 		if !closedWorld(c.Value.Type()) {
+			res.All = true // unknown implementation of an external interface
 			return
 		}
 		impls := eng.Implementers(iface, typeName(c.Value.Type()))
@@ -459,8 +500,37 @@ func (eng *Engine) callEffects(c *ssa.CallCommon, s *sorts, res *Effects, walk f
 			return
 		}
 	}
+	// dynamic call through a struct field with an assumed function-value contract
+	if fc := eng.funcFieldContract(c.Value); fc != nil {
+		if fc.HasModifies {
+			res.add(eng.modifiesEffects(fc, nil, s))
+			return
+		}
+	}
+	if eng.libraryFuncField(c.Value) != "" {
+		return
+	}
 	// dynamic call through a function value of unknown origin
 	res.All = true
+}
+
+// funcFieldContract: the assumed contract for function values stored in the struct field that v is loaded from
+func (eng *Engine) funcFieldContract(v ssa.Value) *FuncContract {
+	ld, ok := v.(*ssa.UnOp)
+	if !ok {
+		return nil
+	}
+	fa, ok := ld.X.(*ssa.FieldAddr)
+	if !ok {
+		return nil
+	}
+	st := fa.X.Type().Underlying().(*types.Pointer).Elem()
+	n, ok := st.(*types.Named)
+	if !ok || n.Obj().Pkg() == nil {
+		return nil
+	}
+	key := n.Obj().Pkg().Path() + ".field:" + n.Obj().Name() + "." + st.Underlying().(*types.Struct).Field(fa.Field).Name()
+	return eng.DB.Funcs[key]
 }
 
 // ifaceMethodKey: contract key of an interface method, e.g. net/http.(ResponseWriter).Write
@@ -569,4 +639,14 @@ func (eng *Engine) instrEffects(ins ssa.Instruction, g *vcgen) *Effects {
 		eng.localEffects(ins, s, res, walk)
 	}
 	return res
+}
+
+func (eng *Engine) EffectsString(fn *ssa.Function) string {
+	e := eng.FuncEffects(fn)
+	var ns []string
+	for n := range e.Vars {
+		ns = append(ns, n)
+	}
+	sort.Strings(ns)
+	return fmt.Sprintf("all=%v %v", e.All, ns)
 }
